@@ -47,10 +47,56 @@ RoundStep(F, withLabel) ==
   /\ Next /\ Len(rounds') = Len(rounds) + 1 /\ status' # "ValueError"
   /\ Match(F) /\ ThrOK /\ (withLabel => LabelOK)
 ErrorStep == Next /\ status' = Ev.class
+
+\* ------------------------------------------------------------------ queries on a finished election (C09)
+NStates == Len(rounds)
+QIdx == IF Ev.r >= 0 THEN Ev.r + 1 ELSE NStates + Ev.r + 1          \* 1-based index into rounds
+QInRange == Ev.r >= -NStates /\ Ev.r <= NStates - 1
+RECURSIVE ElectedSeq(_)
+ElectedSeq(i) == IF i = 0 THEN <<>> ELSE ElectedSeq(i-1) \o rounds[i].elected
+RECURSIVE EliminatedSeq(_)
+EliminatedSeq(i) == IF i = 0 THEN <<>> ELSE Reverse(rounds[i].eliminated) \o EliminatedSeq(i-1)   \* most recent first
+RankingSeq(i) == ElectedSeq(i) \o rounds[i].remaining \o EliminatedSeq(i)
+(* a flat row order is consistent with a ranking of sets: each group occupies its own block of rows *)
+FlatOK(order, rk) == /\ Len(order) = NumCands(rk)
+                     /\ \A g \in 1..Len(rk) : {order[p] : p \in (CardUpTo(rk, g-1) + 1)..CardUpTo(rk, g)} = rk[g]
+StatusOf(c, i) ==
+  IF \E j \in 1..i : c \in UNION Range(rounds[j].elected) THEN <<c, "Elected", (CHOOSE j \in 1..i : c \in UNION Range(rounds[j].elected)) - 1>>
+  ELSE IF \E j \in 1..i : c \in UNION Range(rounds[j].eliminated) THEN <<c, "Eliminated", (CHOOSE j \in 1..i : c \in UNION Range(rounds[j].eliminated)) - 1>>
+  ELSE <<c, "Remaining", i - 1>>
+(* the profile clauses of C09 are stated for rounds reached without any random choice *)
+DeterministicUpTo(i) == ~RandomByRequest /\ \A j \in 1..i : rounds[j].tiebreaks = {}
+QueryClause ==
+  LET i == QIdx IN
+  IF ~QInRange THEN (IF Ev.error = "IndexError" THEN "" ELSE "Query:OutOfRangeAccepted")
+  ELSE IF ~Ev.same THEN "Query:Impure"                                                        \* purity holds for every query
+  ELSE IF Ev.name \in {"get_profile", "get_step"} /\ ~DeterministicUpTo(i) THEN ""          \* outside the statement
+  ELSE IF Ev.error # "" THEN "Query:Error:" \o Ev.error
+  ELSE CASE Ev.name = "get_elected"    -> IF SetSeq(Ev.groups) = ElectedSeq(i) THEN "" ELSE "Query:Elected"
+         [] Ev.name = "get_eliminated" -> IF SetSeq(Ev.groups) = EliminatedSeq(i) THEN "" ELSE "Query:Eliminated"
+         [] Ev.name = "get_remaining"  -> IF SetSeq(Ev.groups) = rounds[i].remaining THEN "" ELSE "Query:Remaining"
+         [] Ev.name = "get_ranking"    -> IF SetSeq(Ev.groups) = RankingSeq(i) THEN "" ELSE "Query:Ranking"
+         [] Ev.name = "get_status_df"  -> IF {<<x[1], x[2], x[3]>> : x \in ToSet(Ev.status)} # {StatusOf(c, i) : c \in cands} THEN "Query:Status"
+                                          ELSE IF ~FlatOK(Ev.order, RankingSeq(i)) THEN "Query:StatusOrder" ELSE ""
+         [] Ev.name = "len"            -> IF Ev.len = NStates - 1 THEN "" ELSE "Query:Len"
+         [] Ev.name \in {"get_profile", "get_step"} ->
+              IF ToSet(Ev.cands) # RemainingOf(i) THEN "Query:ProfileCands"
+              ELSE IF Ev.hasrescore /\ ScoresOf(Ev.rescored) # rounds[i].scores THEN "Query:ProfileRescore"
+              ELSE IF BagOf(Ev.bag) # rounds[i].bag THEN "Query:ProfileBag"
+              ELSE IF Ev.name = "get_step" /\ RoundOf(Ev.state) # [rounds[i] EXCEPT !.bag = BagOf(Ev.state.bag)] THEN "Query:StepState"
+              ELSE ""
+         [] OTHER -> "Query:Unknown"
+(* the snapshot of election_states logged after the whole history must still be the recorded rounds *)
+SnapshotClause == IF [j \in 1..Len(Ev.rounds) |-> [RoundOf(Ev.rounds[j]) EXCEPT !.bag = NoBallots]] = [j \in 1..Len(rounds) |-> [rounds[j] EXCEPT !.bag = NoBallots]]
+                  THEN "" ELSE "Query:RecordedRoundsChanged"
+QueryStep == /\ status \in {"finished"} /\ (IF Ev.ev = "Query" THEN QueryClause ELSE SnapshotClause) = ""
+             /\ UNCHANGED vars
+
 AllFields == {"elected", "eliminated", "tiebreaks", "bag", "scores", "remaining"}
 Step ==
   /\ ~done /\ l < Len(T.events)
-  /\ IF Ev.ev = "Round" THEN RoundStep(AllFields, TRUE) ELSE IF Ev.ev = "Error" THEN ErrorStep ELSE FALSE
+  /\ IF Ev.ev = "Round" THEN RoundStep(AllFields, TRUE) ELSE IF Ev.ev = "Error" THEN ErrorStep
+     ELSE IF Ev.ev \in {"Query", "Snapshot"} THEN QueryStep ELSE FALSE
   /\ l' = l + 1 /\ UNCHANGED <<tid, nrej, done>>
 
 KF_veto_below == /\ cfg.rule = "PluralityVeto" /\ l < Len(T.events) /\ Ev.ev = "Round"
@@ -60,6 +106,8 @@ Flags == SetToSeq(KFlags \cup (IF KF_veto_below THEN {"veto_below"} ELSE {}))
 (* which clause of the logged round no successor reproduces (first in this order) *)
 Clause ==
   IF Ev.ev = "Error" THEN "Error:" \o Ev.class
+  ELSE IF Ev.ev = "Query" THEN (IF status # "finished" THEN "Query:NotFinished" ELSE QueryClause)
+  ELSE IF Ev.ev = "Snapshot" THEN (IF status # "finished" THEN "Query:NotFinished" ELSE SnapshotClause)
   ELSE IF Ev.ev # "Round" THEN Ev.ev
   ELSE IF status # "running" THEN "RoundAfter:" \o status
   ELSE IF ~ENABLED RoundStep({}, FALSE) THEN "NoRoundEnabled"
@@ -87,6 +135,11 @@ ResyncBody ==
   /\ l' = l + 1 /\ nrej' = nrej + 1
   /\ UNCHANGED <<cfg, cands, prof0, tid, done>>
 
+(* a rejected query: report it and go on with the rest of the history *)
+QuerySkip ==
+  /\ Write([tid |-> T.id, kind |-> "reject", l |-> l, clause |-> Clause, status |-> status, rule |-> cfg.rule, flags |-> Flags])
+  /\ l' = l + 1 /\ nrej' = nrej + 1 /\ UNCHANGED <<vars, tid, done>>
+
 (* terminal verdicts: exactly one "final" line per trace *)
 FinishBody ==
   /\ LET bad == IF l < Len(T.events) THEN Clause
@@ -101,6 +154,7 @@ Advance ==
   /\ IF l = Len(T.events) THEN FinishBody
      ELSE IF ENABLED Step THEN Step
      ELSE IF Ev.ev = "Round" THEN ResyncBody
+     ELSE IF Ev.ev \in {"Query", "Snapshot"} /\ status = "finished" THEN QuerySkip
      ELSE FinishBody
 
 TNext == Advance
